@@ -11,9 +11,11 @@ pytest report.  In addition a few REAL pynguin pipeline runs (corpus of small mo
 assertion-generation modes) are executed in subprocesses with `TestSuiteWriter.write` observed; their
 suites go through the same model comparison and the same oracle.
 
-Oracle (independent of the Lean model): the file compiles; every name loaded in a test function is a
-local assigned earlier, a module-level name or a builtin; pytest collects the file; every test not
-marked xfail passes and every test marked `xfail(strict=True)` is reported xfailed.
+Oracle (independent of the Lean model): the file compiles; every name loaded in a test function — in a
+decorator, in the `pytest.raises(<class>)` header, in a statement, in an assertion (the place is part of
+the failure signature) — is a local assigned earlier, a module-level name or a builtin; pytest collects
+the file; every test not marked xfail passes and every test marked `xfail(strict=True)` is reported
+xfailed.
 """
 from __future__ import annotations
 
@@ -42,6 +44,8 @@ import decimal
 import enum
 import json
 
+import c18aux
+
 
 class Shade(enum.Enum):
     DARK = "d"
@@ -61,8 +65,18 @@ class _HiddenError(Exception):
     pass
 
 
+class _HiddenSub(AppError):
+    pass
+
+
 class Box:
     class Inner(ValueError):
+        pass
+
+    class _Cap(AppError):
+        pass
+
+    class _Veiled(_HiddenError):
         pass
 
     limit = 3
@@ -85,6 +99,12 @@ class Box:
 
     def boom(self):
         raise Box.Inner("inner")
+
+    def hide(self):
+        raise _HiddenError(self.v)
+
+    def cap(self):
+        raise Box._Cap("cap")
 
 
 def half(x):
@@ -186,17 +206,82 @@ def invdec(x):
 
 def hidden_fail():
     raise _HiddenError("h")
+
+
+def hidden_sub_fail():
+    raise _HiddenSub("hs")
+
+
+def veiled_fail():
+    raise Box._Veiled("v")
+
+
+def aux_fail(flag):
+    """Fail with a class of another module.
+
+    Raises:
+        AuxError: if flag
+        _AuxHidden: if not flag
+    """
+    raise c18aux.AuxError("a") if flag else c18aux._AuxHidden("h")
+
+
+def aux_deep_fail(flag):
+    raise c18aux.Holder.Deep("d") if flag else c18aux.make_local()("l")
+
+
+def guard(x):
+    """Pass small numbers through.
+
+    Raises:
+        _HiddenError: if x is large
+    """
+    if x > 5:
+        raise _HiddenError(x)
+    return x
 '''
 
-PRIV = '''def _hidden(x):
+# a second module, NOT under test: exception classes the module under test raises but does not define
+AUX = '''class AuxError(Exception):
+    pass
+
+
+class _AuxHidden(AuxError):
+    pass
+
+
+class Holder:
+    class Deep(AuxError):
+        pass
+
+
+def make_local():
+    class LocalAux(_AuxHidden):
+        pass
+
+    return LocalAux
+'''
+
+PRIV = '''class _PErr(Exception):
+    pass
+
+
+def _hidden(x):
     return x * 2.5
 
 
 def _fail(x):
     raise LookupError(x)
+
+
+def _pfail(x):
+    class _Loc(_PErr):
+        pass
+
+    raise _PErr(x) if x > 0 else _Loc(x)
 '''
 
-SUTS = {"zoo": ZOO, "priv": PRIV}
+SUTS = {"aux": AUX, "zoo": ZOO, "priv": PRIV}
 
 # name, params (kind per param), declared exceptions, result is a Box?
 FUNCS = [
@@ -207,9 +292,17 @@ FUNCS = [
     ("local_fail", [], ["Local"]), ("mk_box", ["num"], []), ("gen", ["small"], []), ("quit_", ["small"], []),
     ("cplx", ["num"], []), ("Box", ["num"], []), ("parse", ["str"], ["JSONDecodeError"]),
     ("invdec", ["any"], ["DivisionByZero", "InvalidOperation"]), ("hidden_fail", [], ["_HiddenError"]),
+    ("hidden_sub_fail", [], ["_HiddenSub"]), ("veiled_fail", [], ["_Veiled"]),
+    ("aux_fail", ["bool"], ["AuxError", "_AuxHidden"]), ("aux_deep_fail", ["bool"], ["Deep", "LocalAux"]),
+    ("guard", ["num"], ["_HiddenError"]),
 ]
-METHODS = [("put", ["num"], ["AppError"]), ("total", [], []), ("get", ["small"], ["IndexError"]), ("boom", [], [])]
-PRIV_FUNCS = [("_hidden", ["num"], []), ("_fail", ["num"], ["LookupError"])]
+METHODS = [("put", ["num"], ["AppError"]), ("total", [], []), ("get", ["small"], ["IndexError"]), ("boom", [], []),
+           ("hide", [], ["_HiddenError"]), ("cap", [], ["_Cap"])]
+PRIV_FUNCS = [("_hidden", ["num"], []), ("_fail", ["num"], ["LookupError"]), ("_pfail", ["num"], ["_PErr", "_Loc"])]
+# callables that raise a class which is not a builtin: private / nested / function-local classes of the module
+# under test, classes of another module (public, private, nested, function-local), a standard-library class
+CUSTOM_RAISERS = {"check", "nested_fail", "local_fail", "hidden_fail", "hidden_sub_fail", "veiled_fail", "aux_fail",
+                  "aux_deep_fail", "guard", "parse", "invdec", "boom", "hide", "cap", "put", "_pfail"}
 
 BUILTIN_NAMES = set(dir(builtins))
 
@@ -393,7 +486,7 @@ def parse_emitted(text: str):
         items = []
         assigned: set[str] = set()
 
-        def check(sub_root, assigned_now):
+        def check(sub_root, assigned_now, where):
             # comprehension / lambda parameters are local to the expression
             inner = {n.id for n in ast.walk(sub_root) if isinstance(n, ast.Name) and isinstance(n.ctx, ast.Store)}
             inner |= {a.arg for n in ast.walk(sub_root) if isinstance(n, ast.arguments)
@@ -402,9 +495,10 @@ def parse_emitted(text: str):
                 if isinstance(n, ast.Name) and isinstance(n.ctx, ast.Load):
                     if n.id in assigned_now or n.id in module_names or n.id in BUILTIN_NAMES or n.id in inner:
                         continue
-                    unbound.append([node.name, n.id])
+                    # where: decorator | raises (the `with pytest.raises(<class>)` header) | statement | assert
+                    unbound.append([node.name, n.id, where])
         for dec in node.decorator_list:
-            check(dec, set())
+            check(dec, set(), "decorator")
         for st in node.body:
             if isinstance(st, ast.Pass):
                 continue
@@ -413,17 +507,17 @@ def parse_emitted(text: str):
                 exc = call.args[0].id if isinstance(call, ast.Call) and call.args and isinstance(call.args[0], ast.Name) else "?"
                 inner_bound = _bound_of(st.body[0]) if st.body else None
                 items.append(["raises", exc, inner_bound])
-                check(call, assigned)
+                check(call, assigned, "raises")
                 for b in st.body:
-                    check(b.value if isinstance(b, (ast.Assign, ast.Expr)) else b, assigned)
+                    check(b.value if isinstance(b, (ast.Assign, ast.Expr)) else b, assigned, "statement")
                     if _bound_of(b):
                         assigned.add(_bound_of(b))
             elif isinstance(st, ast.Assert):
                 items.append(["assert", _assert_kind(st)])
-                check(st, assigned)
+                check(st, assigned, "assert")
             else:
                 items.append(["bare", _bound_of(st)])
-                check(st.value if isinstance(st, (ast.Assign, ast.Expr)) else st, assigned)
+                check(st.value if isinstance(st, (ast.Assign, ast.Expr)) else st, assigned, "statement")
                 if _bound_of(st):
                     assigned.add(_bound_of(st))
         fns.append({"name": node.name, "xfail": any(_is_xfail(d) for d in node.decorator_list), "items": items})
@@ -618,6 +712,64 @@ def mode(x: int) -> _Mode:
 def describe(m: _Mode) -> str:
     return m.name.lower()
 ''',
+    "stack": '''class Empty(Exception):
+    pass
+
+
+class _Full(Exception):
+    pass
+
+
+class Stack:
+    class Sealed(Empty):
+        pass
+
+    def __init__(self, capacity: int = 1):
+        self._capacity = capacity % 3
+        self._items: list[int] = []
+
+    def push(self, item: int) -> int:
+        """Push an item.
+
+        Raises:
+            _Full: if the stack holds `capacity` items
+        """
+        if len(self._items) >= self._capacity:
+            raise _Full(self._capacity)
+        self._items.append(item)
+        return len(self._items)
+
+    def pop(self) -> int:
+        """Pop an item.
+
+        Raises:
+            Empty: if there is none
+        """
+        if not self._items:
+            raise Empty()
+        return self._items.pop()
+
+    def seal(self) -> None:
+        raise Stack.Sealed()
+
+
+def drain(stack: Stack) -> int:
+    """Pop twice.
+
+    Raises:
+        Empty: if fewer than two items
+    """
+    return stack.pop() + stack.pop()
+
+
+def overfill(n: int) -> int:
+    """Push onto a stack without room.
+
+    Raises:
+        _Full: always
+    """
+    return Stack(0).push(n)
+''',
     "floats": '''import math
 
 
@@ -653,11 +805,14 @@ class C18(PropertyCheck):
     n_runs_quick = 2
     n_runs_thorough = 18
     rule = ("random suites (1-4 test cases of 1-6 statements over 2 fixed deterministic modules: literals, "
-            "function/constructor/method calls on earlier values, bare public names; declared/undeclared/"
-            "nested/function-local/builtin exceptions; float/object/isinstance/type-name/length assertions "
-            "from observed values) x seed in {None,1,2} x no_xfail x black; every emitted file is run with "
-            "pytest in a fresh interpreter; plus real pipeline runs; non-trivial = the emitted file has an "
-            "assertion, a pytest.raises wrapper or an xfail marker")
+            "function/constructor/method calls on earlier values, bare public names; a third of the calls go to "
+            "callables raising non-builtin classes: public / PRIVATE / nested / function-local classes of the "
+            "module under test, public / private / nested / local classes of ANOTHER module, stdlib classes; "
+            "declared / undeclared / no accessible; float/object/isinstance/type-name/length assertions "
+            "from observed values) x seed in {None,1} x no_xfail (40 %) x black; every emitted file is run with "
+            "pytest in a fresh interpreter; plus real pipeline runs (one of the quick runs is on a module with "
+            "its own public, private and nested exception classes; --no-xfail alternates); non-trivial = the "
+            "emitted file has an assertion, a pytest.raises wrapper or an xfail marker")
     assumptions = [
         "module under test deterministic and free of module-level mutable state (the synthetic modules and the "
         "pipeline corpus are); its public names do not rebind pytest/sys/random or builtins used by assertions",
@@ -713,7 +868,7 @@ class C18(PropertyCheck):
         return rng.choice(["[]", "[1, 2, 2]", "[3]", "['a', 1]"])
 
     def gen_case(self, rng):
-        mod = "priv" if rng.random() < 0.08 else "zoo"
+        mod = "priv" if rng.random() < 0.1 else "zoo"
         alias = f"c18{mod}_"
         tests = []
         for _ in range(rng.choice([1, 1, 2, 2, 3, 4])):
@@ -728,12 +883,17 @@ class C18(PropertyCheck):
                         if vars_ and rng.random() < 0.55:
                             return rng.choice(vars_)
                         return self._literal(rng, kind)
+                    # a third of the calls go to callables raising a non-builtin exception class
+                    custom = rng.random() < 0.33
                     if mod == "zoo" and boxes and rng.random() < 0.35:
-                        name, params, declared = rng.choice(METHODS)
+                        name, params, declared = rng.choice(
+                            [m for m in METHODS if m[0] in CUSTOM_RAISERS] if custom else METHODS)
                         src = f"{rng.choice(boxes)}.{name}({', '.join(arg(k) for k in params)})"
                         fn = ["Box", name]
                     else:
-                        name, params, declared = rng.choice(FUNCS if mod == "zoo" else PRIV_FUNCS)
+                        pool = FUNCS if mod == "zoo" else PRIV_FUNCS
+                        name, params, declared = rng.choice(
+                            [f for f in pool if f[0] in CUSTOM_RAISERS] if custom else pool)
                         prefix = "" if (mod == "zoo" and rng.random() < 0.1) else alias + "."
                         src = f"{prefix}{name}({', '.join(arg(k) for k in params)})"
                         fn = [name]
@@ -749,7 +909,7 @@ class C18(PropertyCheck):
                     if fn in (["mk_box"], ["Box"]):
                         boxes.append(var)
             tests.append(stmts)
-        return {"mod": mod, "seed": rng.choice([None, None, None, 1, 1]), "no_xfail": rng.random() < 0.3,
+        return {"mod": mod, "seed": rng.choice([None, None, None, 1, 1]), "no_xfail": rng.random() < 0.4,
                 "black": rng.random() < 0.5, "assert_mode": rng.choice(["all", "all", "half", "none"]),
                 "salt": rng.randint(0, 10 ** 6), "tests": tests}
 
@@ -929,7 +1089,15 @@ class C18(PropertyCheck):
         if [[f["xfail"], f["items"]] for f in mo["fns"]] != \
                 [[f["xfail"], f["items"]] for f in p["fns"] if f["name"] != "test_empty"]:
             return False
-        # history level: the model's predicted pytest report
+        # names level: which class every `pytest.raises(...)` names and whether the file binds that name;
+        # the model's verdict "every global name resolves" against the static reading of the emitted file
+        mod_names = set(p["names"])
+        got_raises = [[[it[1], it[1] in mod_names or it[1] in BUILTIN_NAMES] for it in f["items"] if it[0] == "raises"]
+                      for f in p["fns"] if f["name"] != "test_empty"]
+        if [[[c[0], c[2]] for c in f] for f in mo["raises_classes"]] != got_raises:
+            return False
+        if mo["names_ok"] != (not [u for u in p["unbound"] if not u[1].startswith("var_")]):
+            return False
         if mo["report"] is None or not mo["imports_ok"]:
             return io["collect_error"] is not None
         if io["collect_error"] is not None:
@@ -947,12 +1115,17 @@ class C18(PropertyCheck):
         if "syntax_error" in p:
             return [Failure({"class": "not-valid-python"}, f"emitted file does not compile: {p['syntax_error']}",
                             detail=io["file"])]
-        for fn, name in p["unbound"]:
+        for fn, name, where in p["unbound"]:
             kind = ("pytest" if name == "pytest" else "private-sut-name" if name.startswith("_")
                     else "local" if name.startswith("var_") else "other")
-            fs.append(Failure({"class": "unbound-name", "kind": kind},
-                              f"{fn} reads `{name}`, which the emitted file neither imports nor assigns",
-                              detail=io["file"]))
+            sig = {"class": "unbound-name", "kind": kind}
+            if not (kind == "private-sut-name" and where == "assert"):
+                # the place of the read is part of the signature: only a private name inside a rendered
+                # ASSERTION VALUE is the recorded finding; a class named by `pytest.raises(...)`, a name in a
+                # statement or in a decorator that the file does not bind is a different violation
+                sig["where"] = where
+            fs.append(Failure(sig, f"{fn} reads `{name}` ({where}), which the emitted file neither imports nor "
+                                   f"assigns", detail=io["file"]))
         if io["collect_error"] is not None:
             ce = io["collect_error"]
             kind = "ImportError" if "ImportError" in ce else "NameError" if "NameError" in ce else "other"
@@ -964,10 +1137,19 @@ class C18(PropertyCheck):
             want = "xfailed" if f["xfail"] else "passed"
             if got != want:
                 err = got.split(":")[1].strip().split("(")[0].split(" ")[0] if ":" in got else got
-                static = [n for fn, n in p["unbound"] if fn == f["name"]]
-                cause = ("unbound-" + ("pytest" if "pytest" in static else "private-sut-name" if
-                                       any(n.startswith("_") for n in static) else "name")) if static else \
-                    ("xpass-strict" if f["xfail"] else "fails")
+                static = [(n, w) for fn, n, w in p["unbound"] if fn == f["name"]]
+                if not static:
+                    cause = "xpass-strict" if f["xfail"] else "fails"
+                elif any(n == "pytest" for n, _ in static):
+                    cause = "unbound-pytest"
+                elif any(w == "raises" for _, w in static):
+                    cause = "unbound-exception-class"       # `with pytest.raises(<class>)`, class not imported
+                elif any(n.startswith("_") and w != "assert" for n, w in static):
+                    cause = "unbound-private-name-in-" + next(w for n, w in static if n.startswith("_") and w != "assert")
+                elif any(n.startswith("_") for n, _ in static):
+                    cause = "unbound-private-sut-name"      # only inside assertion values: the recorded finding
+                else:
+                    cause = "unbound-name"
                 fs.append(Failure({"class": "test-outcome", "want": want, "cause": cause},
                                   f"{f['name']} (xfail={f['xfail']}) is reported `{got}`, expected `{want}`",
                                   detail={"file": io["file"], "error": err}))
@@ -997,12 +1179,17 @@ class C18(PropertyCheck):
         self._plan = []
         for i in range(n):
             name = names[(self.seed * 3 + i) % len(names)] if i < len(names) else rng.choice(names)
+            if self.tier == "quick" and i == 1:
+                name = "stack"      # the quick tier always has one run on the module with its own exception classes
             self._plan.append({"i": i, "name": name, "mode": modes[(self.seed + i) % 3],
                                "seed": rng.randint(1, 10 ** 6), "iters": rng.choice([4, 6, 8]),
-                               "algo": ["DYNAMOSA", "MOSA", "WHOLE_SUITE", "RANDOM"][(self.seed + i) % 4]})
+                               "algo": ["DYNAMOSA", "MOSA", "WHOLE_SUITE", "RANDOM"][(self.seed + i) % 4],
+                               # both policies for raising statements: xfail marker / pytest.raises everywhere
+                               "no_xfail": (self.seed + i // 2) % 2 == 1})
         self._procs = {}
         self._launch(6)
-        return [{"real_run": r["i"], "run": {k: r[k] for k in ("name", "mode", "seed", "algo")}} for r in self._plan]
+        return [{"real_run": r["i"], "run": {k: r[k] for k in ("name", "mode", "seed", "algo", "no_xfail")}}
+                for r in self._plan]
 
     def _launch(self, k):
         root = self._scratch() / "runs"
@@ -1019,7 +1206,8 @@ class C18(PropertyCheck):
             args = ["--project-path", str(d / "sut"), "--module-name", f"sut_{r['name']}",
                     "--output-path", str(d / "tests"), "--report-dir", str(d / "rep"),
                     "--algorithm", r["algo"], "--maximum-iterations", str(r["iters"]), "--seed", str(r["seed"]),
-                    "--assertion-generation", r["mode"], "--use-master-worker", "False"]
+                    "--assertion-generation", r["mode"], "--use-master-worker", "False",
+                    "--no-xfail", str(r["no_xfail"])]
             log = (d / "log.txt").open("w")
             self._procs[r["i"]] = (d, subprocess.Popen(
                 [vcommon.PY, str(Path(__file__).resolve()), *args],
@@ -1047,7 +1235,7 @@ class C18(PropertyCheck):
                 raise RuntimeError(f"pipeline run {r['name']}/{r['mode']}/seed {r['seed']} produced no observation: "
                                    f"{(d / 'log.txt').read_text()[-800:]}")
             got = json.loads(out.read_text())
-            self.count(f"real-run:{r['name']}:{r['mode']}:rc{got['rc']}")
+            self.count(f"real-run:{r['name']}:{r['mode']}:no_xfail={r['no_xfail']}:rc{got['rc']}")
             if not got["captured"]:
                 self.notes.append(f"run {r['name']}/{r['mode']}: TestSuiteWriter.write not reached (rc {got['rc']})")
                 continue
